@@ -153,6 +153,23 @@ class FakeSock:
         self.closed = True
 
 
+_LOOPBACK = []
+
+
+def _loopback_ok():
+    if not _LOOPBACK:
+        import socket as _s
+        try:
+            t = _s.socket()
+            t.bind(("127.0.0.1", 0))
+            t.listen(1)
+            t.close()
+            _LOOPBACK.append(True)
+        except OSError:
+            _LOOPBACK.append(False)
+    return _LOOPBACK[0]
+
+
 class Observer:
     """Interface the oracles implement; all callbacks run synchronously inside the SUT's
     own atomic step, so their order is the server's execution order."""
@@ -196,6 +213,8 @@ class QsSim:
         self.violation = None
         self.server = None
         self.counters = {}
+        self.backdoor = False  # run the server with QSERVE_BACKDOOR set (see enable_backdoor)
+        self._backdoors = []
         self._install()
         self._start_server()
         self.clock.mono += PHASE
@@ -309,6 +328,26 @@ class QsSim:
 
         rpcserver.Server = SimServer
         self.handlers = {}
+        if self.backdoor:
+            # deployment knob of qserve: a gevent backdoor next to the RPC port.  The real
+            # BackdoorServer listens on an ephemeral loopback port nobody ever connects to; the
+            # subclass only remembers the instance so that its socket can be closed afterwards.
+            os.environ["QSERVE_BACKDOOR"] = "0"
+            from gevent import backdoor as _bd
+            if not getattr(_bd.BackdoorServer, "_vsim_recording", False):
+                real_bs = _bd.BackdoorServer
+
+                class RecordingBackdoorServer(real_bs):
+                    _vsim_recording = True
+                    _vsim_real = real_bs
+
+                    def __init__(bself, *a, **kw):
+                        real_bs.__init__(bself, *a, **kw)
+                        QsSim._all_backdoors.append(bself)
+
+                _bd.BackdoorServer = RecordingBackdoorServer
+        else:
+            os.environ.pop("QSERVE_BACKDOOR", None)
         self.main = qserve.Main(14311, "sim", self.data_dir, set())  # real loaddb()
         for name in ("report", "watchdog", "handletimeouts"):
             setattr(self.main, name, self._stamped_timer(name, getattr(self.main, name)))
@@ -345,6 +384,27 @@ class QsSim:
         gevent.idle()
         if not self.main_greenlet.dead:
             self.main_greenlet.kill(block=True)
+        self._close_backdoors()
+
+    _all_backdoors = []
+
+    def _close_backdoors(self):
+        # (the process is gone: its listening sockets go with it)
+        while QsSim._all_backdoors:
+            bs = QsSim._all_backdoors.pop()
+            try:
+                bs.stop()
+            except Exception:  # noqa: BLE001
+                pass
+
+    def enable_backdoor(self):
+        """From now on the server runs with QSERVE_BACKDOOR set; takes effect by restarting the
+        (still empty) server.  False when loopback sockets are not available here."""
+        if not _loopback_ok():
+            return False
+        self.backdoor = True
+        self.restart(0.0)
+        return True
 
     def _stamped_timer(self, name, fun):
         def tick():
@@ -557,4 +617,6 @@ class QsSim:
         try:
             self._kill_all()
         finally:
+            self._close_backdoors()
+            os.environ.pop("QSERVE_BACKDOOR", None)
             self._uninstall()
